@@ -56,7 +56,8 @@ Definition E_TI_OVERFLOW : N := 3.  (* "entry count overflow" *)
 Definition E_TI_LENGTH : N := 4.    (* "length does not match declared count" *)
 Definition E_TI_UNSORTED : N := 5.  (* "entries not sorted" *)
 Definition E_TI_IO : N := 9.
-Definition P_TI_CAPACITY : N := 1.  (* Vec::with_capacity(count): capacity overflow *)
+Definition E_TI_TOO_LARGE : N := 6. (* "entry count too large": entries.try_reserve_exact(count) failed *)
+Definition P_TI_CAPACITY : N := 1.  (* before b6c8721: Vec::with_capacity(count) panicked here; no longer produced *)
 
 (* the read loop: `count` iterations, each read_exact 8 + 8 bytes, then the order check
    against the previous entry.  Fuel = number of bytes left (each step consumes 16). *)
@@ -93,11 +94,15 @@ Definition read_track (file : bytes) (offset : nat) (length_arg : N) : outcome (
       let payload_bytes := length_arg - TI_HEADER_LEN in
       if 2 ^ 64 <=? count * TI_ENTRY_LEN then Err E_TI_OVERFLOW          (* checked_mul *)
       else if negb (payload_bytes =? count * TI_ENTRY_LEN) then Err E_TI_LENGTH
-      else if 2 ^ 63 <=? count * TI_ENTRY_LEN then Panic P_TI_CAPACITY   (* with_capacity > isize::MAX bytes *)
+      (* usize::try_from(count) cannot fail on a 64-bit target ("entry count overflow" again if it did);
+         try_reserve_exact(count): CapacityOverflow above isize::MAX bytes -> Err.  Below that the
+         reservation is taken to succeed (an allocator refusal would be the same Err, never a panic). *)
+      else if 2 ^ 63 <=? count * TI_ENTRY_LEN then Err E_TI_TOO_LARGE
       else read_entries (length avail) (skipn 12 avail) count None.
 
-(* the inputs on which read_track panics instead of answering: a track header whose count
-   needs more than isize::MAX bytes, presented with the matching length *)
+(* the inputs answered "entry count too large" (before the repair b6c8721: the inputs on which
+   read_track panicked): a track header whose count needs more than isize::MAX bytes, presented
+   with the matching length *)
 Definition ti_capacity_class (file : bytes) (offset : nat) (length_arg : N) : bool :=
   let avail := skipn offset file in
   Nat.leb 12 (length avail) && bytes_eqb (firstn 4 avail) TIME_INDEX_MAGIC &&
